@@ -77,6 +77,62 @@ def base_exception_children(ctx):
             ctx.fail(case, 'a child failed with %r at %r; the block raised %r at %r' % (err, d, e, t), family='base-exception-children')
 
 
+def privileged_subclasses(ctx, n):
+    """a child that fails with a SUBCLASS of a privileged type (a test framework's `class Mismatch(AssertionError)`, a
+    `class Shutdown(SystemExit)`) has failed with a privileged exception: the block ends with that very object, unwrapped,
+    at the time of the failure - alone or next to ordinary failures of the same time step"""
+    import usim
+
+    class Mismatch(AssertionError):
+        pass
+
+    class Shutdown(SystemExit):
+        pass
+
+    class Break(KeyboardInterrupt):
+        pass
+    rng = ctx.rng
+    for _ in range(n):
+        cls = rng.choice([Mismatch, Shutdown, Break, AssertionError, SystemExit])
+        d = rng.choice([0, 1, 2])
+        others = rng.choice([0, 0, 1, 2])
+        err = cls('privileged')
+        got = []
+
+        async def child(e, delay):
+            if delay:
+                await (usim.time + delay)
+            raise e
+
+        async def sibling():
+            await (usim.time + 9)
+
+        async def main():
+            try:
+                async with usim.Scope() as s:
+                    for k in range(others):
+                        s.do(child(KeyError(k), d))
+                    s.do(child(err, d))
+                    s.do(sibling())
+                    await (usim.time + 20)
+            except BaseException as e:   # noqa
+                got.append((e, usim.time.now))
+            await (usim.time + 1)
+        case = {'privileged_subclass': dict(type=cls.__name__, after=d, ordinary_failures=others)}
+        try:
+            usim.run(main())
+        except BaseException as e:   # noqa
+            got.append((e, 'run'))
+        ctx.count(case, nontrivial=True)
+        ctx.bump('family:privileged-subclasses')
+        e, t = got[0] if got else (None, None)
+        if not (e is err and t == d):
+            ctx.fail(case, 'a child failed with %r (an instance of the privileged type %s) at %r next to %d ordinary failures; the '
+                           'block ended with %r at %r instead of that very exception, unwrapped, at %r'
+                     % (err, cls.__mro__[1].__name__ if cls.__module__ != 'builtins' else cls.__name__, d, others, e, t, d),
+                     family='privileged-subclasses')
+
+
 def nested_failures_flat_view(ctx, n):
     """directed family (direct API): scopes nested two to four deep, several children of the innermost one failing in one time
     step: the outermost block raises Concurrent of Concurrent ...; its flat view (`.flattened()`) carries exactly the leaf failures,
@@ -222,6 +278,7 @@ def run(ctx):
     from harness import monitors
     monitors.MONITORS['C05s'] = _leaked_signal
     base_exception_children(ctx)
+    privileged_subclasses(ctx, ctx.n(30, 300))
     nested_failures_flat_view(ctx, ctx.n(30, 400))
     propagate_correspondence(ctx, ctx.n(300, 3000))
     machine_prop.run(ctx, FAMILIES, MONITORS + ['C05s'], extra_scenarios=double_failures(ctx.rng, ctx.n(40, 800)))
